@@ -1,7 +1,19 @@
 PROPERTY = "C17"
 ENTRY = {
-        "text": "placeholder",
+        "text": "SafePath.tla (with SafePathCore.tla: Clean, glob Match on segments, Denoted, May, written from the statement) is a state machine "
+                "Add / SetURL / Inject(config file) / Refresh / Remove whose complete state graph over a small location set is checked by TLC "
+                "(all histories; invariants: only clean absolute paths matching a configured pattern may be opened, nothing without patterns, "
+                "only the named file, no foreign scheme, spelling-independence). In 'gen' mode TLC prints one vector per (pattern list, location): "
+                "24 pattern lists (exact, *, ?, [..], multi-star, pattern with '..', relative pattern) x ~6250 locations (absolute spellings up to 5 segments over "
+                "names, '..', '.', empty segments; relative spellings; http/https/file/ftp URL-looking strings) = ~150000 vectors with the sets of paths that "
+                "add_url, set_url, loading from the configuration and a following refresh may open. Each vector is replayed into a real DNSFilter through the "
+                "registered HTTP handlers (POST add_url, set_url, refresh; unvalidated list in Config.Filters) on a scratch tree of sentinel files; opens are observed "
+                "with inotify IN_OPEN, by sentinel rules in the stored lists and by sentinel domains blocked by the rebuilt engine. Quick replays a seeded ~9% sample "
+                "(one entry point each), thorough every vector through all three entry points. Direction B: a seeded driver (random trees, odd names, random globs, "
+                "spellings, 25-step histories incl. restarts) is recorded and validated by TraceSafePath.tla on real path segments.",
         "design_ref": "DESIGN.md section 4 C17",
-        "note": "placeholder",
-        "technique": "TLA+ spec enumerated by TLC; vector replay into real code + TLC trace validation",
+        "note": "Trusted: TLC; conc()/abs() of zz_verif_c17_test.go (rendering of locations/globs, tree layout); inotify as the observer of open(2) "
+                "(cross-checked against stored-list content on accepted requests). Symlink-free scratch tree, Linux path semantics. Opens above the scratch "
+                "tree's root are not observed. Negated classes / ranges containing the separator are not generated. os.Stat before the pattern check is not an open.",
+        "technique": "TLA+ state machine model-checked by TLC; TLC-generated vectors replayed into the real HTTP handlers; TLC trace validation of recorded histories",
     }
